@@ -228,6 +228,27 @@ Proof.
   - destruct (IH vs k ltac:(lia) Hin) as (v & Hv). exists v. cbn. auto.
 Qed.
 
+(* an offset at which an offset-exact lookup fails on a fresh object: outside the section, or the
+   unit header parse raises (truncated header, unsupported version, bad address size) *)
+Definition offset_fails (le : bool) (stream : list Z) (size off : Z) : bool :=
+  negb (in_section size off) ||
+  match parse_CU_at_offset le stream off with Err _ => true | Ok _ => false end.
+Definition lookup_fails (le : bool) (stream : list Z) (size : Z) (o : di_op) : bool :=
+  match o with
+  | OpContaining _ => false
+  | OpAt off => offset_fails le stream size off
+  | OpDie off _ => offset_fails le stream size off
+  end.
+
+(* the bisect cache parses before it inserts: a failing get leaves the lists as they were *)
+Lemma bcache_get_err_state {A} (parse : Z -> res A) c k e :
+  snd (bcache_get parse c k) = Err e -> fst (bcache_get parse c k) = c.
+Proof.
+  unfold bcache_get.
+  destruct ((1 <=? bisect_right (fst c) k)%nat && (k =? nth (bisect_right (fst c) k - 1) (fst c) 0)); [reflexivity|].
+  destruct (parse k); cbn [fst snd]; [discriminate | reflexivity].
+Qed.
+
 (* ------------------------------------------------------------------ unit lookup *)
 Section Units.
   Variables (le : bool) (stream : list Z) (size : Z) (cus : list cu).
@@ -521,6 +542,64 @@ Section History.
       cbn [fst snd] in *. rewrite Ha. auto.
   Qed.
 
+  (* ---- failed lookups.  An offset-exact lookup (get_CU_at, get_DIE_from_lut_entry) whose offset is outside the
+     section, or at which the unit header parse of a fresh object raises, fails the same way in every state
+     and leaves the state as it was: _cached_CU_at_offset parses BEFORE it inserts into the parallel lists *)
+  Definition expected_answer (o : di_op) : di_answer D :=
+    if valid_op cus o then answer_spec parse_die cus size o
+    else snd (di_step parse_die le stream size di_init o).
+
+  Lemma get_CU_at_failing c off : bcache_inv (parse_CU_at_offset le stream) c ->
+    offset_fails le stream size off = true ->
+    exists e, get_CU_at le stream size c off = (c, Err e) /\
+              get_CU_at le stream size ([], []) off = (([], []), Err e).
+  Proof.
+    intros Hb Hf. unfold offset_fails, in_section in Hf. unfold get_CU_at.
+    destruct (negb ((0 <=? off) && (off <? size))) eqn:Hs; [exists EDwarf; auto|].
+    cbn [orb] in Hf. destruct (parse_CU_at_offset le stream off) as [v|e] eqn:Hp; [discriminate|].
+    exists e. unfold cached_CU_at_offset. cbv beta iota. split.
+    - pose proof (bcache_get_spec (parse_CU_at_offset le stream) c off Hb) as (Hsnd & _ & _).
+      rewrite Hp in Hsnd. pose proof (bcache_get_err_state (parse_CU_at_offset le stream) c off e Hsnd) as Hfst.
+      destruct (bcache_get (parse_CU_at_offset le stream) c off) as [c1 r]. cbn [fst snd] in *. congruence.
+    - pose proof (bcache_get_spec (parse_CU_at_offset le stream) ([], []) off (bcache_inv_empty _)) as (Hsnd & _ & _).
+      rewrite Hp in Hsnd. pose proof (bcache_get_err_state (parse_CU_at_offset le stream) ([], []) off e Hsnd) as Hfst.
+      destruct (bcache_get (parse_CU_at_offset le stream) ([], []) off) as [c1 r]. cbn [fst snd] in Hsnd, Hfst.
+      rewrite Hsnd, Hfst. reflexivity.
+  Qed.
+
+  Theorem di_step_failing st o : st_inv st -> lookup_fails le stream size o = true ->
+    di_step parse_die le stream size st o = (st, snd (di_step parse_die le stream size di_init o)).
+  Proof.
+    intros [[Hb _] _] Hf. destruct st as [c dies]. cbn [st_cus] in Hb.
+    destruct o as [r|off|off d]; cbn [lookup_fails] in Hf; [discriminate| |].
+    - destruct (get_CU_at_failing c off Hb Hf) as (e & E1 & E2).
+      cbn [di_step st_cus st_dies di_init]. rewrite E1, E2. reflexivity.
+    - destruct (get_CU_at_failing c off Hb Hf) as (e & E1 & E2).
+      cbn [di_step]. unfold get_DIE_from_lut_entry. cbn [st_cus st_dies di_init]. rewrite E1, E2. reflexivity.
+  Qed.
+
+  (* histories in which failed lookups stand between valid ones: the valid ones are answered by the stateless
+     spec, the failed ones as a fresh object answers them *)
+  Theorem di_run_spec_failures : forall h st, st_inv st ->
+    forallb (fun o => valid_op cus o || lookup_fails le stream size o) h = true ->
+    snd (di_run parse_die le stream size st h) = map expected_answer h /\
+    st_inv (fst (di_run parse_die le stream size st h)).
+  Proof.
+    induction h as [|o r IH]; intros st Hinv Hv; cbn [di_run map]; [auto|].
+    cbn [forallb] in Hv. apply andb_prop in Hv. destruct Hv as [Ho Hr].
+    unfold expected_answer at 1.
+    destruct (valid_op cus o) eqn:Hvo.
+    - destruct (di_step_spec st o Hinv Hvo) as [Ha Hi].
+      destruct (di_step parse_die le stream size st o) as [st1 a]. cbn [fst snd] in *.
+      destruct (IH st1 Hi Hr) as [Hl Hi2].
+      destruct (di_run parse_die le stream size st1 r) as [st2 l]. cbn [fst snd] in *.
+      rewrite Ha, Hl. auto.
+    - cbn [orb] in Ho. rewrite (di_step_failing st o Hinv Ho).
+      destruct (IH st Hinv Hr) as [Hl Hi2].
+      destruct (di_run parse_die le stream size st r) as [st2 l]. cbn [fst snd] in *.
+      rewrite Hl. auto.
+  Qed.
+
   (* ... lifted over every finite history of valid queries *)
   Theorem di_run_spec : forall h st, st_inv st -> forallb (valid_op cus) h = true ->
     snd (di_run parse_die le stream size st h) = map (answer_spec parse_die cus size) h /\
@@ -574,6 +653,27 @@ Proof.
   destruct (di_run_spec le stream size (section_units us) Ht Hp parse_die h1 di_init
               (st_inv_init le stream (section_units us) parse_die) Hv1) as [_ Hi].
   apply (di_run_spec le stream size (section_units us) Ht Hp parse_die h2 st Hi Hv2).
+Qed.
+
+(* ... also when lookups that fail (offset outside the section, or a unit header parse that raises on a fresh
+   object) stand anywhere in the history: they fail as on a fresh object and change nothing *)
+Theorem units_history_with_failures {D} (parse_die : cu -> Z -> res D) le us h1 h2 :
+  wf_units us = true ->
+  let stream := encode_units le us in
+  let size := zlen stream in
+  let cus := section_units us in
+  let ok := fun o => valid_op cus o || lookup_fails le stream size o in
+  forallb ok h1 = true -> forallb ok h2 = true ->
+  let st := fst (di_run parse_die le stream size di_init h1) in
+  snd (di_run parse_die le stream size st h2) =
+  map (fun o => if valid_op cus o then answer_spec parse_die cus size o
+                else snd (di_step parse_die le stream size di_init o)) h2.
+Proof.
+  intros Hwf stream size cus ok Hv1 Hv2 st.
+  pose proof (section_tiles le us Hwf) as Ht. pose proof (section_parses le us Hwf) as Hp.
+  destruct (di_run_spec_failures le stream size cus Ht Hp parse_die h1 di_init
+              (st_inv_init le stream cus parse_die) Hv1) as [_ Hi].
+  apply (di_run_spec_failures le stream size cus Ht Hp parse_die h2 st Hi Hv2).
 Qed.
 
 Theorem unit_containing_exact {D} (parse_die : cu -> Z -> res D) le us h r :
